@@ -198,6 +198,26 @@ fn build(picks: &[P], b: &mut B, depth: usize, xf: &dyn Fn(BBox) -> BBox) -> Vec
                 out.push(XEl::new("rect").a("id", id).a("xy", format!("#{anchor}|{} {}", ["h", "H", "v", "V"][p.f as usize % 4], num(p.n[4].abs()))).a("wh", format!("{} {}", num(w), num(h))));
                 b.later.push(XEl::new("circle").a("id", anchor).a("cxy", format!("{} {}", num(x), num(y))).a("r", num(h / 2.0)));
             }
+            23 => {
+                // elements rendered by a loop: every pass contributes to the extent
+                let n = 1 + (p.f >> 2) as usize % 4;
+                let step = [7.0, -5.5, 12.25, 0.0][(p.f >> 5) as usize % 4];
+                let v = format!("lv{id}");
+                let body = |var: &str| XEl::new("rect").a("xy", format!("{{{{${var} * {} + {}}}}} {}", num(step), num(x), num(y))).a("wh", format!("{} {}", num(w), num(h)));
+                let inc = XEl::new("var").a(&v, format!("{{{{${v} + 1}}}}"));
+                match p.f % 4 {
+                    0 => out.push(XEl::new("loop").a("count", n.to_string()).a("loop-var", v.clone()).kid(body(&v))),
+                    1 => {
+                        out.push(XEl::new("var").a(&v, "0"));
+                        out.push(XEl::new("loop").a("while", format!("lt(${v}, {n})")).kid(body(&v)).kid(inc));
+                    }
+                    2 => {
+                        out.push(XEl::new("var").a(&v, "0"));
+                        out.push(XEl::new("loop").a("until", format!("ge(${v}, {n})")).kid(body(&v)).kid(inc));
+                    }
+                    _ => out.push(XEl::new("for").a("data", (0..n).map(|i| i.to_string()).collect::<Vec<_>>().join(", ")).a("var", v.clone()).kid(body(&v))),
+                }
+            }
             _ => {
                 out.push(XEl::new("a").a("href", "#top").kid(XEl::new("rect").a("id", id).a("xy", format!("{} {}", num(x), num(y))).a("wh", format!("{} {}", num(w), num(h)))));
             }
